@@ -26,7 +26,7 @@ ASSUMPTIONS = ['differential check against sim/model.py, written from the proper
 REAL = ['smartquery.*', 'decimal', 'copy']
 STUB = ['host (names mapping owner, probes t/call/attempt)']
 REACH_PROBES = ('judged_value', 'judged_lang', 'judged_other', 'recursion', 'calluser', 'lambda', 'ops_counter_compared', 'ops_lower_bound_checked', 'second_names_mapping',
-                'hostcall')
+                'hostcall', 'reentrant_host_call')
 
 
 def _world(r):
@@ -38,6 +38,10 @@ def _world(r):
         names[r.choice(['acc', 'item', 'z'])] = {'alias': r.choice(conts)}     # one host object under two names
     fns = ['t', 'call', 'attempt'] if r.random() < 0.4 else []
     w = {'names': names, 'host_fns': fns}
+    if r.random() < 0.2:
+        # the host function re(i) calls back into the same parser in the middle of an evaluation
+        w['host_fns'] = fns = fns + ['re']
+        w['reentry'] = gen.reentry_specs(r, names)
     if r.random() < 0.3:
         w['second'] = {nm: gen.host_value_spec(r, 2, floats=False) for nm in r.sample(['a', 'b', 'c', 'x', 'y', 'z'], r.randint(0, 4))}
     if r.random() < 0.3:
@@ -67,7 +71,7 @@ def generate(seed, tier):
         env = {k: type_of(v) for k, v in cur.items() if not getattr(v, '_sim_kind', '').startswith('host:')}
         arity = {k: len(v.params) for k, v in cur.items() if getattr(v, '_sim_kind', '') == 'lambda'}
         g = ProgGen(ro, env, max_depth=ro.choice([2, 3, 3, 4]), allow_host=world['host_fns'], fn_arity=arity,
-                    probes=bool(world['host_fns']) and ro.random() < 0.3)
+                    probes=('t' in world['host_fns']) and ro.random() < 0.3, reentry=world.get('reentry'))
         if ro.random() < 0.1:
             # faults between the judged evaluations: a text that does not parse, or a list_names scan abandoned midway
             # (possibly inside an open bracket) on the same parser
@@ -161,6 +165,9 @@ def execute(case, ctx):
                         {'kind': 'charged_ne_performed'})
         ctx.op_kind(mout[0])
         ctx.state(W.state_digest())
+    if W.host.reentries:
+        ctx.fault('reentry', W.host.reentries)
+        ctx.probe('reentrant_host_call')
     if judged_n >= 2 and interesting:
         ctx.nontrivial = True
 
